@@ -61,6 +61,17 @@ func sameVal(a, b ssa.Value) bool {
 	if ok1 && ok2 && ba.Op == bb.Op {
 		return sameVal(ba.X, bb.X) && sameVal(ba.Y, bb.Y)
 	}
+	// len(x.f) / cap(x.f) evaluated twice (the SSA form has no common subexpression elimination)
+	la, ok1 := a.(*ssa.Call)
+	lb, ok2 := b.(*ssa.Call)
+	if ok1 && ok2 {
+		ba, okA := la.Call.Value.(*ssa.Builtin)
+		bb, okB := lb.Call.Value.(*ssa.Builtin)
+		if okA && okB && ba.Name() == bb.Name() && (ba.Name() == "len" || ba.Name() == "cap") && len(la.Call.Args) == 1 && len(lb.Call.Args) == 1 {
+			return sameVal(la.Call.Args[0], lb.Call.Args[0])
+		}
+		return false
+	}
 	fa, ok1 := fieldLoad(a)
 	fb, ok2 := fieldLoad(b)
 	return ok1 && ok2 && fa == fb
@@ -389,17 +400,31 @@ func C11data(p *load.Program, run *report.Run) {
 					continue
 				}
 				var k *ssa.Const
+				var other ssa.Value
 				switch {
 				case remaining(x):
 					k, _ = y.(*ssa.Const)
+					other = y
 				case remaining(y):
 					k, _ = x.(*ssa.Const)
+					other = x
+				}
+				// min(remaining, len(ReadBuf)) / cap(ReadBuf): clamped by the buffer itself
+				byBuffer := false
+				if oc, ok := other.(*ssa.Call); ok && k == nil {
+					if bi, ok := oc.Call.Value.(*ssa.Builtin); ok && (bi.Name() == "len" || bi.Name() == "cap") && len(oc.Call.Args) == 1 && isFieldLoad(oc.Call.Args[0], "ReadBuf") {
+						byBuffer = true
+					}
 				}
 				switch {
+				case byBuffer:
+					okFill = true
 				case k == nil:
 					fillMsg = "the refill request is not min(remaining, C)"
 				case bufLen < 0:
-					fillMsg = "size of the read buffer not found in NewConn"
+					// the buffer is not allocated in NewConn with a constant: whether C fits every allocation
+					// is decided by fill-request-within-read-buffer
+					okFill = true
 				case k.Int64() > bufLen || k.Int64() < 1:
 					fillMsg = fmt.Sprintf("the refill asks for up to %d bytes, the read buffer holds %d: Fill can never be satisfied", k.Int64(), bufLen)
 				default:
